@@ -149,7 +149,46 @@ type c09Env struct {
 	fs         *FullStack
 	routes     []c09Route
 	A, U, R, X string
+	D          string // a sacrificial issued token: the target of DELETE /access/:token requests
+	nhook      int
+	dTokens    string
 }
+
+const c09Victim = "http://c09.invalid/victim"
+
+// prepare makes the request "effective": if the handler of a state-changing route ran, a table would change.
+// Returns the concrete path (+query) and body for the route pattern.
+func (e *c09Env) prepare(method, pattern string) (target, body string) {
+	adm := map[string]string{"Authorization": "Bearer " + e.A}
+	target = c09Concrete(pattern)
+	if method == "POST" || method == "PUT" || method == "PATCH" {
+		body = "{}"
+	}
+	switch {
+	case pattern == "/api/v1/access/:token" && method == "DELETE":
+		if e.D == "" || e.fs.TableDigest("tokens") != e.dTokens {
+			code, out := e.fs.Do("POST", "/api/v1/access", "", adm)
+			var t struct {
+				Token string `json:"token"`
+			}
+			if code == 200 && json.Unmarshal([]byte(out), &t) == nil {
+				e.D = t.Token
+			}
+			e.dTokens = e.fs.TableDigest("tokens")
+		}
+		target = "/api/v1/access/" + e.D
+	case pattern == "/api/v1/webhook" && method == "POST":
+		e.nhook++
+		body = fmt.Sprintf(`{"url":"http://c09.invalid/hook-%d","requiredAuth":{"type":"BEARER","token":"t","header":"h"}}`, e.nhook)
+	case pattern == "/api/v1/webhook" && method == "DELETE":
+		e.fs.Do("POST", "/api/v1/webhook", `{"url":"`+c09Victim+`","requiredAuth":{"type":"BEARER","token":"t","header":"h"}}`, adm)
+		target += "?url=" + c09Victim
+	case pattern == "/api/v1/webhook" && method == "GET":
+		target += "?url=" + c09Victim
+	}
+	return target, body
+}
+
 
 func (e *c09Env) subst(t string) string {
 	return strings.NewReplacer("$A", e.A, "$U", e.U, "$R", e.R, "$X", e.X).Replace(t)
@@ -212,18 +251,18 @@ func (e *c09Env) request(method, pattern, hdr, query string) (obs string) {
 	if strings.HasPrefix(hdr, "=") {
 		h["Authorization"] = e.subst(hdr[1:])
 	}
-	body := ""
-	if method == "POST" || method == "PUT" || method == "PATCH" {
-		body = "{}"
+	target, body := e.prepare(method, pattern)
+	if query != "" {
+		target += query
 	}
 	before := e.digests()
 	var code int
 	var out string
 	if strings.HasPrefix(hdr, "=") && hdr == "=" {
 		// an Authorization header that is present but empty
-		code, out = e.fs.Do(method, c09Concrete(pattern)+query, body, map[string]string{"Authorization": ""})
+		code, out = e.fs.Do(method, target, body, map[string]string{"Authorization": ""})
 	} else {
-		code, out = e.fs.Do(method, c09Concrete(pattern)+query, body, h)
+		code, out = e.fs.Do(method, target, body, h)
 	}
 	if code != 401 {
 		return "pass"
